@@ -2385,6 +2385,16 @@ func main() {
 				apis = append(apis, buildAPI(dc))
 			}
 		}
+		// 5a. a history on one graphql-ws connection: subscription (events cost A), another start message
+		// (cost B), one more event: each execution's RequestInfo.Cost is its own operation's cost
+		for _, ab := range [][2]int{{50, 1}, {3, 7}, {1, 0}, {2147483647, 2}} {
+			ab := ab
+			for k := 0; k < 3; k++ {
+				k := k
+				h.Case(func(r *rng.R) sexp.Node { return wsSubCase(ab[0], ab[1], k) })
+			}
+		}
+
 		// 5b. systematic on the apifu routes: kind of variable x how the variables travel (no
 		// "variables" key, null, {}, only unrelated, explicit null, value) x HTTP / graphql-ws / persisted query
 		for _, k := range varKinds("x") {
